@@ -698,6 +698,284 @@ theorem demux_sound (n : Nat) : (demuxC n : Comb Unit (Nat × β) β).Sound () (
   | nil => rfl
   | cons x xs ih => by_cases hx : x.1 = j <;> simp [List.filterMap_cons, List.filter_cons, hx, ih]
 
+/-! ## FilterMapAsync (futures as scripts: pending `d` times, then `Some out` / `None`) -/
+
+/-- outputs resolved or still in flight -/
+def fmaPend (k : FmaSt β) : List β :=
+  k.resolved.toList ++ (match k.buffer with | some (_, some out) => [out] | _ => [])
+
+def aux_invFma : Inv1T (FmaSt β) (Nat × Option β) β := fun pu k pd su sd =>
+  (pd.started = true → pu.started = true) ∧ pd.closed = pu.closed ∧
+  sd ++ fmaPend k = su.filterMap (·.2) ∧
+  (pu.ready = true → pu.started = false → k.buffer = none ∧ k.resolved = none) ∧
+  (pd.started = true → k.buffer = none ∧ k.resolved = none) ∧
+  (k.resolved ≠ none → k.buffer = none)
+
+theorem aux_fmaReady {k k1 : FmaSt β} {es : List (PEv β)} {b : Bool} {pd : PSt}
+    (he : Emits (fmaReady k) es (k1, b))
+    (h5 : pd.started = true → k.buffer = none ∧ k.resolved = none)
+    (h6 : k.resolved ≠ none → k.buffer = none) :
+    ∃ es0 pd', es = onPort 0 es0 ∧ pd.run es0 = some pd' ∧ pd'.started = pd.started ∧ pd'.closed = pd.closed ∧
+      sends es0 ++ fmaPend k1 = fmaPend k ∧ (b = true → k1.buffer = none ∧ k1.resolved = none) ∧
+      (k1.resolved ≠ none → k1.buffer = none) ∧ (pd.started = true → k1.buffer = none ∧ k1.resolved = none) := by
+  obtain ⟨buffer, resolved⟩ := k
+  cases resolved with
+  | some out =>
+    have hb : buffer = none := h6 (by simp)
+    subst hb
+    have hps : pd.started = false := by
+      cases h : pd.started
+      · rfl
+      · have := (h5 h).2; simp at this
+    simp only [fmaReady, emits_rdy] at he
+    obtain ⟨b', es', rfl, he⟩ := he
+    cases b' with
+    | true =>
+      simp only [if_true, emits_snd, emits_ret] at he
+      obtain ⟨es'', rfl, rfl, hk⟩ := he
+      cases hk
+      exact ⟨[.rdy true, .snd out], { pd with ready := false }, rfl, by simp [PSt.run, PSt.step, hps], rfl, rfl,
+        by simp [fmaPend], by simp, by simp, by simp⟩
+    | false =>
+      simp only [Bool.false_eq_true, if_false, emits_ret] at he
+      obtain ⟨rfl, hk⟩ := he
+      cases hk
+      exact ⟨[.rdy false], { pd with ready := false }, rfl, by simp [PSt.run, PSt.step], rfl, rfl,
+        by simp [fmaPend], by simp, by simp, by intro h; rw [hps] at h; cases h⟩
+  | none =>
+    cases buffer with
+    | none =>
+      simp only [fmaReady, emits_ret] at he
+      obtain ⟨rfl, hk⟩ := he
+      cases hk
+      exact ⟨[], pd, rfl, rfl, rfl, rfl, by simp, by simp, by simp, by simp⟩
+    | some fut =>
+      obtain ⟨d, out⟩ := fut
+      have hps : pd.started = false := by
+        cases h : pd.started
+        · rfl
+        · have := (h5 h).1; simp at this
+      cases d with
+      | succ d =>
+        simp only [fmaReady, emits_ret] at he
+        obtain ⟨rfl, hk⟩ := he
+        cases hk
+        exact ⟨[], pd, rfl, rfl, rfl, rfl, by cases out <;> simp [fmaPend], by simp, by simp, by intro h; rw [hps] at h; cases h⟩
+      | zero =>
+        cases out with
+        | none =>
+          simp only [fmaReady, emits_ret] at he
+          obtain ⟨rfl, hk⟩ := he
+          cases hk
+          exact ⟨[], pd, rfl, rfl, rfl, rfl, by simp [fmaPend], by simp, by simp, by simp⟩
+        | some out =>
+          simp only [fmaReady, emits_rdy] at he
+          obtain ⟨b', es', rfl, he⟩ := he
+          cases b' with
+          | true =>
+            simp only [if_true, emits_snd, emits_ret] at he
+            obtain ⟨es'', rfl, rfl, hk⟩ := he
+            cases hk
+            exact ⟨[.rdy true, .snd out], { pd with ready := false }, rfl, by simp [PSt.run, PSt.step, hps], rfl, rfl,
+              by simp [fmaPend], by simp, by simp, by simp⟩
+          | false =>
+            simp only [Bool.false_eq_true, if_false, emits_ret] at he
+            obtain ⟨rfl, hk⟩ := he
+            cases hk
+            exact ⟨[.rdy false], { pd with ready := false }, rfl, by simp [PSt.run, PSt.step], rfl, rfl,
+              by simp [fmaPend], by simp, by simp, by intro h; rw [hps] at h; cases h⟩
+
+theorem aux_simFma : SimInv1 (fmaC (β := β)) aux_invFma where
+  ready := by
+    intro pu k pd su sd es k1 b ⟨h1, h2, h3, h4, h5, h6⟩ he
+    obtain ⟨es0, pd', rfl, hr, g1, g2, g3, g4, g5, g6⟩ := aux_fmaReady (pd := pd) he h5 h6
+    refine ⟨es0, pd', rfl, hr, by rw [g1]; exact h1, by rw [g2]; exact h2, ?_, fun hb _ => g4 hb, by rw [g1]; exact g6, g5⟩
+    rw [List.append_assoc, g3]; exact h3
+  send := by
+    intro pu k pd su sd es k1 x ⟨h1, h2, h3, h4, h5, h6⟩ hr hs he
+    simp only [fmaC, emits_ret] at he
+    obtain ⟨rfl, rfl⟩ := he
+    obtain ⟨hb, hres⟩ := h4 hr hs
+    have hps := aux_started_false h1 hs
+    obtain ⟨buffer, resolved⟩ := k
+    simp only at hb hres
+    subst hb hres
+    obtain ⟨d, out⟩ := x
+    refine ⟨[], pd, rfl, rfl, h1, h2, ?_, ?_, ?_, ?_⟩
+    · simp only [fmaPend] at h3 ⊢
+      cases out <;> simp_all [List.filterMap_append]
+    · simp
+    · intro h; rw [hps] at h; cases h
+    · simp
+  fin := by
+    intro pu k pd su sd es k1 b ⟨h1, h2, h3, h4, h5, h6⟩ he
+    obtain ⟨es1, b1, he1, hcase⟩ := thenFin_shape he
+    obtain ⟨es0, pd', rfl, hr, g1, g2, g3, g4, g5, g6⟩ := aux_fmaReady (pd := pd) he1 h5 h6
+    rcases hcase with ⟨rfl, rfl⟩ | ⟨rfl, rfl, rfl⟩
+    · refine ⟨es0 ++ [Ev.fin b], { pd' with started := true, closed := pd'.closed || b }, by simp [onPort], ?_, fun _ => rfl,
+        by simp [g2, h2], ?_, by simp, fun _ => g4 rfl, g5⟩
+      · rw [PSt.run_append, hr]; simp [PSt.run, PSt.step]
+      · simp only [sends_append, sends_fin, sends_nil, List.append_nil]
+        rw [List.append_assoc, g3]; exact h3
+    · refine ⟨es0, pd', rfl, hr, fun h => by simp, by simp [g2, h2], ?_, by simp, by rw [g1]; exact g6, g5⟩
+      rw [List.append_assoc, g3]; exact h3
+
+/-- `FilterMapAsync`: every `Some` output is delivered exactly once, in order, whatever the
+    futures' and the downstream's pending patterns (since the F121 fix also when the downstream
+    pends repeatedly after a future resolved). -/
+theorem filterMapAsync_sound :
+    (fmaC (β := β)).Sound ⟨none, none⟩ [0] (fun _ ins outs => outs = ins.filterMap (·.2)) :=
+  aux_simFma.sound ⟨by simp, rfl, by simp [fmaPend], by simp, by simp, by simp⟩ (fun pu k pd su sd h hwf hc => by
+    obtain ⟨h1, h2, h3, _, h5, _⟩ := h
+    have hpc : pd.closed = true := by rw [h2]; exact hc
+    obtain ⟨hb, hr⟩ := h5 (hwf hpc)
+    refine ⟨hpc, ?_⟩
+    simpa [fmaPend, hb, hr] using h3)
+
+/-! ## FlatMapStream / FlattenStream (streams as scripts with `Pending` placements) -/
+
+def fmsPend : FmsSt β → List β
+  | none => []
+  | some (st, item) => item.toList ++ items st
+
+theorem aux_fmsLoop {pd : PSt} (hps : pd.started = false) (st : List (Option β)) :
+    ∀ {item : Option β} {es : List (PEv β)} {k1 : FmsSt β} {b : Bool}, Emits (fmsLoop st item) es (k1, b) →
+    ∃ es0 pd', es = onPort 0 es0 ∧ pd.run es0 = some pd' ∧ pd'.started = false ∧ pd'.closed = pd.closed ∧
+      sends es0 ++ fmsPend k1 = item.toList ++ items st ∧ (b = true → k1 = none) := by
+  induction st generalizing pd with
+  | nil =>
+    intro item es k1 b he
+    cases item with
+    | none =>
+      simp only [fmsLoop, emits_ret] at he
+      obtain ⟨rfl, hk⟩ := he; cases hk
+      exact ⟨[], pd, rfl, rfl, hps, rfl, by simp [fmsPend], fun _ => rfl⟩
+    | some x =>
+      simp only [fmsLoop, emits_rdy] at he
+      obtain ⟨b', es', rfl, he⟩ := he
+      cases b' with
+      | true =>
+        simp only [if_true, emits_snd, emits_ret] at he
+        obtain ⟨es'', rfl, rfl, hk⟩ := he; cases hk
+        exact ⟨[.rdy true, .snd x], { pd with ready := false }, rfl, by simp [PSt.run, PSt.step, hps], hps, rfl,
+          by simp [fmsPend], fun _ => rfl⟩
+      | false =>
+        simp only [Bool.false_eq_true, if_false, emits_ret] at he
+        obtain ⟨rfl, hk⟩ := he; cases hk
+        exact ⟨[.rdy false], { pd with ready := false }, rfl, by simp [PSt.run, PSt.step], hps, rfl,
+          by simp [fmsPend], by simp⟩
+  | cons y st ih =>
+    intro item es k1 b he
+    cases y with
+    | none =>
+      cases item with
+      | none =>
+        simp only [fmsLoop, emits_ret] at he
+        obtain ⟨rfl, hk⟩ := he; cases hk
+        exact ⟨[], pd, rfl, rfl, hps, rfl, by simp [fmsPend], by simp⟩
+      | some x =>
+        simp only [fmsLoop, emits_rdy] at he
+        obtain ⟨b', es', rfl, he⟩ := he
+        cases b' with
+        | true =>
+          simp only [if_true, emits_snd, emits_ret] at he
+          obtain ⟨es'', rfl, rfl, hk⟩ := he; cases hk
+          exact ⟨[.rdy true, .snd x], { pd with ready := false }, rfl, by simp [PSt.run, PSt.step, hps], hps, rfl,
+            by simp [fmsPend], by simp⟩
+        | false =>
+          simp only [Bool.false_eq_true, if_false, emits_ret] at he
+          obtain ⟨rfl, hk⟩ := he; cases hk
+          exact ⟨[.rdy false], { pd with ready := false }, rfl, by simp [PSt.run, PSt.step], hps, rfl,
+            by simp [fmsPend], by simp⟩
+    | some y =>
+      cases item with
+      | none =>
+        simp only [fmsLoop] at he
+        obtain ⟨es0, pd', rfl, hr, g1, g2, g3, g4⟩ := ih hps he
+        exact ⟨es0, pd', rfl, hr, g1, g2, by simpa using g3, g4⟩
+      | some x =>
+        simp only [fmsLoop, emits_rdy] at he
+        obtain ⟨b', es', rfl, he⟩ := he
+        cases b' with
+        | true =>
+          simp only [if_true, emits_snd] at he
+          obtain ⟨es'', rfl, he⟩ := he
+          obtain ⟨es0, pd', rfl, hr, g1, g2, g3, g4⟩ := ih (pd := { pd with ready := false }) hps he
+          refine ⟨.rdy true :: .snd x :: es0, pd', rfl, ?_, g1, g2, by simpa using g3, g4⟩
+          rw [PSt.run_cons]; simp only [PSt.step, Option.bind_some]
+          rw [PSt.run_cons]; simp only [PSt.step, hps, Bool.not_false, Bool.and_self, if_true, Option.bind_some]
+          simpa [hps] using hr
+        | false =>
+          simp only [Bool.false_eq_true, if_false, emits_ret] at he
+          obtain ⟨rfl, hk⟩ := he; cases hk
+          exact ⟨[.rdy false], { pd with ready := false }, rfl, by simp [PSt.run, PSt.step], hps, rfl,
+            by simp [fmsPend], by simp⟩
+
+def aux_invFms : Inv1T (FmsSt β) (List (Option β)) β := fun pu k pd su sd =>
+  (pd.started = true → pu.started = true) ∧ pd.closed = pu.closed ∧
+  sd ++ fmsPend k = su.flatMap items ∧
+  (pu.ready = true → pu.started = false → k = none) ∧ (pd.started = true → k = none)
+
+theorem aux_fmsReady {k k1 : FmsSt β} {es : List (PEv β)} {b : Bool} {pd : PSt}
+    (he : Emits (fmsReady k) es (k1, b)) (h5 : pd.started = true → k = none) :
+    ∃ es0 pd', es = onPort 0 es0 ∧ pd.run es0 = some pd' ∧ pd'.started = pd.started ∧ pd'.closed = pd.closed ∧
+      sends es0 ++ fmsPend k1 = fmsPend k ∧ (b = true → k1 = none) ∧ (pd.started = true → k1 = none) := by
+  cases k with
+  | none =>
+    simp only [fmsReady, emits_ret] at he
+    obtain ⟨rfl, hk⟩ := he; cases hk
+    exact ⟨[], pd, rfl, rfl, rfl, rfl, by simp, fun _ => rfl, fun _ => rfl⟩
+  | some v =>
+    obtain ⟨st, item⟩ := v
+    have hps : pd.started = false := by
+      cases h : pd.started
+      · rfl
+      · have := h5 h; simp at this
+    simp only [fmsReady] at he
+    obtain ⟨es0, pd', rfl, hr, g1, g2, g3, g4⟩ := aux_fmsLoop hps st he
+    exact ⟨es0, pd', rfl, hr, by rw [g1, hps], g2, by simpa [fmsPend] using g3, g4, by intro h; rw [hps] at h; cases h⟩
+
+theorem aux_simFms : SimInv1 (fmsC (β := β)) aux_invFms where
+  ready := by
+    intro pu k pd su sd es k1 b ⟨h1, h2, h3, h4, h5⟩ he
+    obtain ⟨es0, pd', rfl, hr, g1, g2, g3, g4, g5⟩ := aux_fmsReady (pd := pd) he h5
+    refine ⟨es0, pd', rfl, hr, by rw [g1]; exact h1, by rw [g2]; exact h2, ?_, fun hb _ => g4 hb, by rw [g1]; exact g5⟩
+    rw [List.append_assoc, g3]; exact h3
+  send := by
+    intro pu k pd su sd es k1 x ⟨h1, h2, h3, h4, h5⟩ hr hs he
+    simp only [fmsC, emits_ret] at he
+    obtain ⟨rfl, rfl⟩ := he
+    have hk := h4 hr hs
+    subst hk
+    have hps := aux_started_false h1 hs
+    refine ⟨[], pd, rfl, rfl, h1, h2, ?_, ?_, ?_⟩
+    · simpa [fmsPend, List.flatMap_append] using h3
+    · simp
+    · intro h; rw [hps] at h; cases h
+  fin := by
+    intro pu k pd su sd es k1 b ⟨h1, h2, h3, h4, h5⟩ he
+    obtain ⟨es1, b1, he1, hcase⟩ := thenFin_shape he
+    obtain ⟨es0, pd', rfl, hr, g1, g2, g3, g4, g5⟩ := aux_fmsReady (pd := pd) he1 h5
+    rcases hcase with ⟨rfl, rfl⟩ | ⟨rfl, rfl, rfl⟩
+    · refine ⟨es0 ++ [Ev.fin b], { pd' with started := true, closed := pd'.closed || b }, by simp [onPort], ?_, fun _ => rfl,
+        by simp [g2, h2], ?_, by simp, fun _ => g4 rfl⟩
+      · rw [PSt.run_append, hr]; simp [PSt.run, PSt.step]
+      · simp only [sends_append, sends_fin, sends_nil, List.append_nil]
+        rw [List.append_assoc, g3]; exact h3
+    · refine ⟨es0, pd', rfl, hr, fun h => by simp, by simp [g2, h2], ?_, by simp, by rw [g1]; exact g5⟩
+      rw [List.append_assoc, g3]; exact h3
+
+/-- `FlatMapStream` / `FlattenStream`: the items of every stream, in order, exactly once, for all
+    `Pending` placements inside the streams and all downstream pending patterns. -/
+theorem flatMapStream_sound :
+    (fmsC (β := β)).Sound none [0] (fun _ ins outs => outs = ins.flatMap items) :=
+  aux_simFms.sound ⟨by simp, rfl, by simp [fmsPend], by simp, by simp⟩ (fun pu k pd su sd h hwf hc => by
+    obtain ⟨h1, h2, h3, _, h5⟩ := h
+    have hpc : pd.closed = true := by rw [h2]; exact hc
+    have hk := h5 (hwf hpc)
+    subst hk
+    exact ⟨hpc, by simpa [fmsPend] using h3⟩)
+
 /-! ## The standard driver `SendPush::poll` (= `SendSink::poll` over `SinkCompat`) -/
 
 /-- For every push `K` over every downstream `N`, every pull script (items and `Pending`
